@@ -91,6 +91,9 @@ pub fn run_case(case: &J, workdir: &str, out: &mut dyn Write, n: usize) {
             return;
         }
     };
+    if let Some(t) = case["transport"].as_str() {
+        node.set_transport(t);
+    }
     let empty = vec![];
     let steps = case["steps"].as_array().unwrap_or(&empty);
     // conflict notices every session received and has not answered yet (C13)
